@@ -8,12 +8,22 @@ import (
 	"github.com/mit-pdos/go-nfsd/nfstypes"
 )
 
+// mkDcache builds the name cache from the directory's slots. It must not lock
+// the entries' inodes: the caller holds dip, and children (and "..") may have
+// smaller inode numbers.
 func mkDcache(dip *inode.Inode, op *fstxn.FsTxn) {
 	dip.Dcache = dcache.MkDcache()
-	Apply(dip, op, 0, dip.Size, 100000000,
-		func(ip *inode.Inode, name string, inum common.Inum, off uint64) {
-			dip.Dcache.Add(name, inum, off)
-		})
+	for off := uint64(0); off < dip.Size; off += DIRENTSZ {
+		data, _ := dip.Read(op.Atxn, off, DIRENTSZ)
+		if uint64(len(data)) != DIRENTSZ {
+			break
+		}
+		de := decodeDirEnt(data)
+		if de.inum == common.NULLINUM {
+			continue
+		}
+		dip.Dcache.Add(de.name, de.inum, off)
+	}
 }
 
 func LookupName(dip *inode.Inode, op *fstxn.FsTxn, name nfstypes.Filename3) (common.Inum, uint64) {
